@@ -253,8 +253,13 @@ func routeSpecs() []RouteSpec {
 
 // ---- value menus ----
 
+// runNow is the value of the symbolic NOW (seconds): fixed by the parent for the whole run and carried in every
+// case, so that re-runs and replays send byte-identical requests.  It is the previous full hour plus 1234 s: a
+// recent past instant that is aligned neither to a minute nor to 15 s (the planners truncate to both).
+var runNow = (time.Now().Unix()/3600)*3600 - 3600 + 1234
+
 func nowIn(unit string, offsetSec int64) string {
-	t := time.Now().Unix() + offsetSec
+	t := runNow + offsetSec
 	switch unit {
 	case "ns":
 		return strconv.FormatInt(t*1e9, 10)
@@ -318,8 +323,7 @@ func menuFor(param, unit string, thorough bool) []string {
 	return []string{absent}
 }
 
-// resolve replaces the symbolic NOW values by numbers in the route's unit (at request time: the only
-// wall-clock dependent input; it only changes numbers inside the SQL text).
+// resolve replaces the symbolic NOW values by numbers in the route's unit.
 func resolve(p P, unit string) P {
 	out := P{}
 	for k, v := range p {
